@@ -166,3 +166,9 @@ impl Settings {
         Poll::Ready(Ok(()))
     }
 }
+
+#[cfg(feature = "verif")]
+#[allow(missing_docs, dead_code, unused_imports)]
+pub(crate) mod verif_h {
+    include!(concat!(env!("H2_VERIF_DIR"), "/harness/proto/settings.rs"));
+}
